@@ -199,27 +199,31 @@ def aslist (view : List PyId) (d : List (PyId × α)) : List α := view.map (fun
 def asnumpy (view : List PyId) (d : List (PyId × α)) : List α := aslist view d
 /-- `aspandas()` with the repair: `pd.Series(self.asdict(), name=self.name)` = (index, values) -/
 def aspandas (view : List PyId) (d : List (PyId × α)) : List PyId × List α :=
-  ((asdict view d).map (·.1), (asdict view d).map (·.2))
+  let dict := asdict view d
+  (dict.map (·.1), dict.map (·.2))
 
 /-! ### `MultiIDStat`: a table derived from the `asdict()` of each stat -/
 
 /-- `_val`: `{n: {s.name: result[s.name][n] for s in stats} for n in view}` with
     `result = {s.name: s.asdict()}`; `cols` = (name, `_val` of that stat) -/
 def multiVal (view : List PyId) (cols : List (String × List (PyId × α))) : List (PyId × List (String × α)) :=
-  view.map (fun n => (n, cols.map (fun c => (c.1, dget (asdict view c.2) n))))
+  let result := cols.map (fun c => (c.1, asdict view c.2))
+  view.map (fun n => (n, result.map (fun c => (c.1, dget c.2 n))))
 
 /-- `d[name]` on an inner dict -/
 def sget (d : List (String × α)) (k : String) : α := ((d.find? (fun p => p.1 = k)).map (·.2)).getD default
 
 /-- `asdict(inner=dict)` -/
 def multiAsdict (view : List PyId) (cols : List (String × List (PyId × α))) : List (PyId × List (String × α)) :=
-  view.map (fun n => (n, dget (multiVal view cols) n))
+  let val := multiVal view cols
+  view.map (fun n => (n, dget val n))
 /-- `asdict(transpose=True)`: `{s.name: s.asdict() for s in stats}` -/
 def multiAsdictT (view : List PyId) (cols : List (String × List (PyId × α))) : List (String × List (PyId × α)) :=
   cols.map (fun c => (c.1, asdict view c.2))
 /-- `aslist(inner=list)`: `[list(val[n].values()) for n in view]` -/
 def multiAslist (view : List PyId) (cols : List (String × List (PyId × α))) : List (List α) :=
-  view.map (fun n => (dget (multiVal view cols) n).map (·.2))
+  let val := multiVal view cols
+  view.map (fun n => (dget val n).map (·.2))
 /-- `aslist(transpose=True)`: `[s.aslist() for s in stats]` -/
 def multiAslistT (view : List PyId) (cols : List (String × List (PyId × α))) : List (List α) :=
   cols.map (fun c => aslist view c.2)
@@ -227,7 +231,8 @@ def multiAslistT (view : List PyId) (cols : List (String × List (PyId × α))) 
     columns axis = (index, column names, rows) -/
 def multiAspandas (view : List PyId) (cols : List (String × List (PyId × α))) :
     List PyId × List String × List (List α) :=
-  (view, cols.map (·.1), view.map (fun n => cols.map (fun c => dget (asdict view c.2) n)))
+  let result := cols.map (fun c => (c.1, asdict view c.2))
+  (view, result.map (·.1), view.map (fun n => result.map (fun c => dget c.2 n)))
 
 end formats
 
@@ -253,7 +258,8 @@ def cmp {α : Type} [DecidableEq α] [LT α] [LE α] [DecidableLT α] [Decidable
     the view, then `from_view`; `none` = `IDNotFound` raised by `from_view` -/
 def filterby {α : Type} [Inhabited α] [DecidableEq α] [LT α] [LE α] [DecidableLT α] [DecidableLE α]
     (s : HG) (k : Kind) (view : List PyId) (d : List (PyId × α)) (m : Mode) (x y : α) : Option (List PyId) :=
-  fromView s k (view.filter (fun i => cmp m (dget (asdict view d) i) x y))
+  let values := asdict view d
+  fromView s k (view.filter (fun i => cmp m (dget values i) x y))
 
 /-- Python's `<=` between attribute values: defined between two ints and between two strings,
     `TypeError` (`none`) otherwise -/
@@ -290,10 +296,10 @@ def isNoneVal (v : Val) : Bool := decide (v = .sc .none)
     makes the call raise (`typeError`); `lib` = `IDNotFound` from `from_view` -/
 def filterbyAttr (s : HG) (k : Kind) (view : List PyId) (a : String) (m : Mode) (x y : Val) (missing : Val) :
     Except ErrKind (List PyId) :=
-  let d := evalStat (attrGet s k a missing) view
-  let cand := view.filter (fun i => !isNoneVal (dget (asdict view d) i))
-  if cand.any (fun i => (cmpVal m (dget (asdict view d) i) x y).isNone) then .error .typeError else
-  match fromView s k (cand.filter (fun i => cmpVal m (dget (asdict view d) i) x y = some true)) with
+  let values := asdict view (evalStat (attrGet s k a missing) view)
+  let cand := view.filter (fun i => !isNoneVal (dget values i))
+  if cand.any (fun i => (cmpVal m (dget values i) x y).isNone) then .error .typeError else
+  match fromView s k (cand.filter (fun i => cmpVal m (dget values i) x y = some true)) with
   | none => .error .lib
   | some l => .ok l
 
